@@ -44,6 +44,7 @@ package formats
 // handed to the writer exactly once, and a failing write is returned.
 //@ func (*JSONFormatter).Write
 //@   requires row: t != nil && t.arena != nil && len(values) == len(t.fields) && forall(j, 0, len(t.fields), fits(values[j], t.fields[j].Type)) && forall(a, 0, len(t.fields), forall(b, a + 1, len(t.fields), t.fields[a].Name != t.fields[b].Name))
-//@   loop 1 invariant fields: 0 <= $k && $k <= len(t.fields) && jkind(obj) == 7 && forall(j, 0, $k, jhas(obj, t.fields[j].Name) && jenc(jfield(obj, t.fields[j].Name), values[j], t.fields[j].Type))
+//@   loop 1 invariant fields: 0 <= $k && $k <= len(t.fields) && jkind(obj) == 7 && jlen(obj) == $k && forall(j, 0, $k, jhas(obj, t.fields[j].Name) && jenc(jfield(obj, t.fields[j].Name), values[j], t.fields[j].Type))
+//@   ensures row: jkind(marshaled()) == 7 && jlen(marshaled()) == len(t.fields) && forall(j, 0, len(t.fields), jhas(marshaled(), t.fields[j].Name) && jenc(jfield(marshaled(), t.fields[j].Name), values[j], t.fields[j].Type))
 //@   ensures written: calls(Write) == old(calls(Write)) + 1
 //@   ensures writeerr: lastres(Write) != nil ==> result != nil
